@@ -363,7 +363,7 @@ def h_covar(fit, n, symbolic, others, useC, npix=3):
                         t = J[m, a] * J[m, b]
                         want = t if want is None else want + t
                 cl.append(core.lift(M_in[a, b]) == core.lift(want))
-        c.oblige(tag + ':matrix inverted == J^T %s J' % ('C^-1' if useC else ''), z3.And(cl))
+        c.oblige(tag + ':matrix inverted == J^T %s J' % ('C^-1' if useC else ''), z3.And(cl), timeout_ms=5000)
         if useC:
             c.oblige(tag + ':C itself is inverted first', z3.And([core.lift(calls['inv'][0][0][a, b]) == Cm[a, b].e for a in range(npix) for b in range(npix)]))
             c.oblige(tag + ':jacobian for C case built without B', z3.BoolVal(calls['jac'][-1][2] is None))
@@ -457,7 +457,7 @@ def run_matrix(rep, fit, thorough):
     saved = (fit.lmfit_jacobian, fit.inv)
     done = False
     jobs = [(n, symb, others, useC) for n, symb, others in plans for useC in (False, True) if not (useC and n == 3 and not thorough)]
-    results = core.explore_many([(h_covar(fit, n, symb, others, useC), {}) for n, symb, others, useC in jobs])
+    results = core.explore_many([(h_covar(fit, n, symb, others, useC), dict(wall_s=(600 if thorough else 90))) for n, symb, others, useC in jobs])
     for (n, symb, others, useC), (st, res) in zip(jobs, results):
         rep.stats(st)
         for r in res:
